@@ -805,7 +805,7 @@ theorem unwrap_box (k : Kind) (b : Int) : unwrap k (Val.box k b) = .ok b := by c
 
 /-- n-ary `+` method: the loop adds every operand, result = the sum reduced mod 2^64 into the type -/
 theorem methodLoop_add (k : Kind) (a : Int) (bs : List Int) :
-    ∃ r, methodLoop k (opMethod k "+") false a (bs.map (Val.box k)) = .ok r ∧ (bs = [] ∨ k.inRange r) ∧
+    ∃ r, methodLoop k (opMethod k "+") none a (bs.map (Val.box k)) = .ok r ∧ (bs = [] ∨ k.inRange r) ∧
       BitVec.ofInt 64 r = BitVec.ofInt 64 (a + bs.sum) := by
   induction bs generalizing a with
   | nil => exact ⟨a, rfl, Or.inl rfl, by simp⟩
@@ -813,7 +813,7 @@ theorem methodLoop_add (k : Kind) (a : Int) (bs : List Int) :
     obtain ⟨r1, h1, hr1, e1⟩ := opMethod_add k a b
     obtain ⟨r, h, hr, e⟩ := ih r1
     refine ⟨r, ?_, Or.inr ?_, ?_⟩
-    · simp only [List.map, methodLoop, unwrap_box, Bool.false_and, Bool.false_eq_true, if_false, h1]
+    · simp only [List.map, methodLoop, unwrap_box, Option.isSome_none, Bool.false_and, Bool.false_eq_true, if_false, h1]
       exact h
     · rcases hr with rfl | hr
       · simp only [List.map, methodLoop] at h; injection h with h; subst h; exact hr1
@@ -822,7 +822,7 @@ theorem methodLoop_add (k : Kind) (a : Int) (bs : List Int) :
 
 /-- n-ary `*` method -/
 theorem methodLoop_mul (k : Kind) (a : Int) (bs : List Int) :
-    ∃ r, methodLoop k (opMethod k "*") false a (bs.map (Val.box k)) = .ok r ∧
+    ∃ r, methodLoop k (opMethod k "*") none a (bs.map (Val.box k)) = .ok r ∧
       BitVec.ofInt 64 r = BitVec.ofInt 64 (bs.foldl (· * ·) a) := by
   induction bs generalizing a with
   | nil => exact ⟨a, rfl, rfl⟩
@@ -830,7 +830,7 @@ theorem methodLoop_mul (k : Kind) (a : Int) (bs : List Int) :
     obtain ⟨r1, h1, _, e1⟩ := opMethod_mul k a b
     obtain ⟨r, h, e⟩ := ih r1
     refine ⟨r, ?_, ?_⟩
-    · simp only [List.map, methodLoop, unwrap_box, Bool.false_and, Bool.false_eq_true, if_false, h1]
+    · simp only [List.map, methodLoop, unwrap_box, Option.isSome_none, Bool.false_and, Bool.false_eq_true, if_false, h1]
       exact h
     · rw [e, List.foldl_cons]
       have key : ∀ (l : List Int) (x y : Int), BitVec.ofInt 64 x = BitVec.ofInt 64 y →
